@@ -56,6 +56,7 @@ func main() {
 		{"GpkgWriterGen.v", genGpkgWriter},
 		{"TmsAddrGen.v", genTmsAddr},
 		{"PipeGen.v", genPipe},
+		{"IndexTopGen.v", genIndexTop},
 	}
 	failed := false
 	for _, g := range gens {
